@@ -28,7 +28,7 @@ pub fn run_scenario(scn: &Scenario, hooks: bool, x: &ExploreOpts) -> RunResult {
     }
     let multi = scn.phases.iter().any(|ph| matches!(ph, Phase::Runs { runs, .. } if runs.len() > 1));
     w.borrow_mut().ev(json!({"ev":"reset","scn":scn.id,"n":scn.n,
-        "reads":pad(&scn.reads, scn.n),"writes":pad(&scn.writes, scn.n),"multi":multi}));
+        "reads":pad(&scn.reads, scn.n),"writes":pad(&scn.writes, scn.n),"multi":multi,"tokio":scn.tokio}));
     let mut enabled = Vec::new();
     if let Some(g) = build_logged(scn, &w) {
         let gp: *mut FnGraph<Node> = Box::into_raw(Box::new(g));
@@ -39,11 +39,8 @@ pub fn run_scenario(scn: &Scenario, hooks: bool, x: &ExploreOpts) -> RunResult {
                 Phase::GraphInfo => phase_graph_info(unsafe { &*gp }, &w),
                 Phase::Runs { runs, steps } => {
                     let mut ex = Exec::new(w.clone(), gp, runs);
-                    for st in steps {
-                        if !ex.step(st) {
-                            break;
-                        }
-                    }
+                    ex.tokio = scn.tokio;
+                    ex.run_steps(steps);
                     enabled = ex.enabled(x);
                     let mark = w.borrow().log.len();
                     ex.finish();
